@@ -35,6 +35,7 @@ pub struct ItsBinder {
     pub canon: BTreeMap<String, Address>,
     pub ids: BTreeMap<String, [u8; 32]>,
     pub idcheck: String,
+    pub wasm_hash: Option<BytesN<32>>,
     pub fk_meta: String,
     pub accts: Vec<String>,
     pub fresh: u32,
@@ -68,6 +69,7 @@ impl ItsBinder {
             canon: BTreeMap::new(),
             ids: BTreeMap::new(),
             idcheck: "ok".into(),
+            wasm_hash: None,
             fk_meta: jstr(init, "fkMeta"),
             accts: { let mut a = jstrs(inst, "Accts"); a.sort(); a },
             fresh: 0,
@@ -91,6 +93,7 @@ impl ItsBinder {
             )
         };
         b.its = mk_its(CHAIN_NAME);
+        b.wasm_hash = Some(wasm_hash.clone());
         let its_other_chain = mk_its("another-chain");
         b.g.cx.bind("its", &b.its.clone());
         b.dry = env.register(Dry, ());
@@ -392,7 +395,7 @@ impl ItsBinder {
         (
             GwMessage {
                 source_chain: SStr::from_str(&env, d["srcChain"].as_str().unwrap()),
-                message_id: SStr::from_str(&env, d["key"].as_str().unwrap()),
+                message_id: SStr::from_str(&env, Self::msg_id_of_key(d["key"].as_str().unwrap())),
                 source_address: SStr::from_str(&env, src_addr),
                 contract_address: dest,
                 payload_hash: BytesN::from_array(&env, &keccak(&payload)),
@@ -431,6 +434,7 @@ impl ItsBinder {
             } else if c == &gw && name == "message_executed" {
                 if let Some(m) = t.get(1).and_then(|v| GwMessage::try_from_val(&env, &v).ok()) {
                     let k = sstr_to_string(&m.message_id);
+                    let k = self.key_of(&sstr_to_string(&m.source_chain), &k);
                     out.push(json!({"k": "delivery_executed", "key": if k.starts_with("fresh-") { "fresh".to_string() } else { k }}));
                 }
             } else if c == &self.gs && name == "gas_paid" {
@@ -603,6 +607,10 @@ impl ItsBinder {
                         auths.push((a, pg));
                     }
                 }
+                for n in Self::scoped(act) {
+                    let a = self.g.cx.addr(&n);
+                    auths.push((a, self.pay_gas_inv(&payer, &payload, gas_amt)));
+                }
                 let r = self.g.cx.call_auth(&auths, &its, func, args);
                 let ret = match &r {
                     Ok(v) => BytesN::<32>::try_from_val(&env, v).map(|b| json!(self.id_name(&b.to_array()))).unwrap_or(json!("badret")),
@@ -642,6 +650,20 @@ impl ItsBinder {
                     }
                     root = root.with(self.pay_gas_inv(&caller, &payload, gas_amt));
                     auths.push((a, root));
+                }
+                // `scoped`: principals who signed only the sub-invocations (taking the token, paying the gas) as
+                // separate entries, not this service call
+                for n in Self::scoped(act) {
+                    let a = self.g.cx.addr(&n);
+                    if let Some(t) = tok_addr.clone() {
+                        let (kind, tamt) = take.clone().map(|(k, x)| (sym_name(&env, &k.to_val()).unwrap_or_default(), x)).unwrap_or(("burn".into(), amt));
+                        if kind == "burn" {
+                            auths.push((a.clone(), Inv::new(&t, "burn", svec![&env, caller.into_val(&env), tamt.into_val(&env)])));
+                        } else {
+                            auths.push((a.clone(), Inv::new(&t, "transfer", svec![&env, caller.into_val(&env), its.into_val(&env), tamt.into_val(&env)])));
+                        }
+                    }
+                    auths.push((a, self.pay_gas_inv(&caller, &payload, gas_amt)));
                 }
                 let r = self.g.cx.call_auth(&auths, &its, "interchain_transfer", args);
                 self.finish(r, unit())
@@ -713,6 +735,10 @@ impl ItsBinder {
                     .iter()
                     .map(|n| (self.g.cx.addr(n), Inv::new(&ex, "send", args.clone()).with(Inv::new(&self.gs.clone(), "pay_gas", pg_args.clone()).with(Inv::new(&self.gas_token.clone(), "transfer", sub.clone())))))
                     .collect();
+                let mut auths = auths;
+                for n in Self::scoped(act) {
+                    auths.push((self.g.cx.addr(&n), Inv::new(&self.gs.clone(), "pay_gas", pg_args.clone()).with(Inv::new(&self.gas_token.clone(), "transfer", sub.clone()))));
+                }
                 let r = self.g.cx.call_auth(&auths, &ex, "send", args);
                 self.finish(r, unit())
             }
@@ -723,6 +749,27 @@ impl ItsBinder {
             }
             other => panic!("ITS: unknown action {other}"),
         }
+    }
+
+    /// key names of the form "<id>_<tag>" share the message id "<id>" with key "<id>" (same id, other chain)
+    fn msg_id_of_key(key: &str) -> &str {
+        key.split('_').next().unwrap()
+    }
+    /// the catalogue key of (source chain, message id), if any delivery has it
+    fn key_of(&self, chain: &str, id: &str) -> String {
+        if let Some(ds) = self.inst["Deliveries"].as_object() {
+            for d in ds.values() {
+                let k = d["key"].as_str().unwrap();
+                if Self::msg_id_of_key(k) == id && d["srcChain"].as_str() == Some(chain) {
+                    return k.to_string();
+                }
+            }
+        }
+        id.to_string()
+    }
+
+    fn scoped(act: &J) -> Vec<String> {
+        act.get("scoped").and_then(|x| x.as_array()).map(|a| a.iter().map(|n| n.as_str().unwrap().to_string()).collect()).unwrap_or_default()
     }
 
     pub fn project(&mut self) -> J {
@@ -828,7 +875,7 @@ impl ItsBinder {
                 }
             }
             for c in chains {
-                let ex: bool = self.g.cx.query(&gw, "is_message_executed", svec![&env, SStr::from_str(&env, &c).into_val(&env), SStr::from_str(&env, &k).into_val(&env)]).unwrap_or(false);
+                let ex: bool = self.g.cx.query(&gw, "is_message_executed", svec![&env, SStr::from_str(&env, &c).into_val(&env), SStr::from_str(&env, Self::msg_id_of_key(&k)).into_val(&env)]).unwrap_or(false);
                 if ex {
                     status = "executed".into();
                 }
@@ -839,8 +886,23 @@ impl ItsBinder {
             }
             appr.insert(k, json!(status));
         }
+        // construction-time wiring, through the public getters: constant over every history
+        let mut wiring: Vec<&str> = vec![];
+        let gs_q: Option<Address> = self.g.cx.query(&its, "gas_service", SVec::new(&env));
+        let gw_q: Option<Address> = self.g.cx.query(&its, "gateway", SVec::new(&env));
+        let cn_q: Option<SStr> = self.g.cx.query(&its, "chain_name", SVec::new(&env));
+        let ha_q: Option<SStr> = self.g.cx.query(&its, "its_hub_address", SVec::new(&env));
+        let hc_q: Option<SStr> = self.g.cx.query(&its, "its_hub_chain_name", SVec::new(&env));
+        let wh_q: Option<BytesN<32>> = self.g.cx.query(&its, "interchain_token_wasm_hash", SVec::new(&env));
+        if gs_q.as_ref() != Some(&self.gs) { wiring.push("gas_service"); }
+        if gw_q.as_ref() != Some(&gw) { wiring.push("gateway"); }
+        if cn_q.map(|s| sstr_to_string(&s)).as_deref() != Some(CHAIN_NAME) { wiring.push("chain_name"); }
+        if ha_q.map(|s| sstr_to_string(&s)).as_deref() != Some(HUB_ADDR) { wiring.push("its_hub_address"); }
+        if hc_q.map(|s| sstr_to_string(&s)).as_deref() != Some("axelar") { wiring.push("its_hub_chain_name"); }
+        if wh_q != self.wasm_hash { wiring.push("interchain_token_wasm_hash"); }
+        let wiring = if wiring.is_empty() { "ok".to_string() } else { wiring.join(",") };
         let owner: Option<Address> = self.g.cx.query(&its, "owner", SVec::new(&env));
-        json!({"trusted": trusted, "reg": reg, "regTok": reg_tok, "tokMeta": tok_meta, "bal": bal, "minters": minters,
+        json!({"wiring": wiring, "trusted": trusted, "reg": reg, "regTok": reg_tok, "tokMeta": tok_meta, "bal": bal, "minters": minters,
                "tokOwner": tok_owner, "tokSelfId": tok_self, "gas": gas, "appr": appr, "fkMeta": self.fk_meta,
                "idcheck": self.idcheck, "owner": owner.map(|a| self.g.cx.name_of(&a)).unwrap_or("none".into())})
     }
